@@ -369,6 +369,126 @@ def fn_helper(spec, rec):
     rec.nt(nontriv)
 
 
+# --------------------------------------------------------------------------- State round trip: all callback-property values
+
+def norm_value(v, depth=0):
+    from glue.core.component_id import ComponentID
+    from glue.core.data import BaseData
+    from glue.core.subset import Subset
+    import matplotlib.colors as mc
+    if isinstance(v, (bool, np.bool_)):
+        return bool(v)
+    if isinstance(v, (int, np.integer)):
+        return float(v)
+    if isinstance(v, (float, np.floating)):
+        return None if v != v else float(v)
+    if isinstance(v, str) or v is None:
+        return v
+    if isinstance(v, ComponentID):
+        return ("cid", getattr(v.parent, "label", None), v.label)
+    if isinstance(v, BaseData):
+        return ("data", v.label)
+    if isinstance(v, Subset):
+        return ("subset", v.label, getattr(v.data, "label", None))
+    if isinstance(v, mc.Colormap):
+        return ("cmap", v.name)
+    if isinstance(v, dict) or type(v).__name__ == "CallbackDict":
+        return {str(k): norm_value(x, depth + 1) for k, x in dict(v).items()}
+    if isinstance(v, (list, tuple)) or type(v).__name__ == "CallbackList":
+        if depth > 2:
+            return "..."
+        return [norm_value(x, depth + 1) for x in v]
+    if hasattr(v, "iter_callback_properties"):
+        return state_values(v, depth + 1)
+    return ("repr", type(v).__name__)
+
+
+def state_values(state, depth=0):
+    out = {}
+    for name, prop in sorted(state.iter_callback_properties()):
+        if name in ("layers",) and depth > 0:
+            continue
+        try:
+            out[name] = norm_value(getattr(state, name), depth)
+        except Exception as e:  # noqa
+            out[name] = "unreadable:" + type(e).__name__
+    return out
+
+
+def fn_state_roundtrip(spec, rec):
+    from glue.core import Data
+    from glue.core.state import GlueSerializer, GlueUnSerializer
+    from ..viewers import make_app, viewer_classes
+    kind = spec["kind"]
+    app = make_app()
+    if kind in ("image", "profile"):
+        d = Data(label="img", x=np.arange(24.0).reshape(2, 3, 4), y=np.arange(24.0).reshape(2, 3, 4)[::-1] * 2)
+    else:
+        d = Data(label="tab", x=np.array([0.0, 1.5, 3.0, 4.5]), y=np.array([2.0, 1.0, 5.0, 3.0]), z=np.array([1.0, 2.0, 4.0, 8.0]), c=np.array(["p", "q", "p", "r"]))
+    app.data_collection.append(d)
+    app.data_collection.new_subset_group(subset_state=d.id["x"] > 1)
+    try:
+        v = app.new_data_viewer(viewer_classes()[kind], data=d)
+        changed = 0
+        for m in spec["mutations"]:
+            states = [v.state] + list(v.state.layers)
+            stt = states[m[0] % len(states)]
+            props = sorted(stt.iter_callback_properties())
+            name, prop = props[m[1] % len(props)]
+            if name in ("layers", "layer"):
+                continue
+            cur = getattr(stt, name)
+            new = None
+            choices = None
+            if hasattr(prop, "get_choices"):
+                try:
+                    choices = [c for c in prop.get_choices(stt) if type(c).__name__ != "ChoiceSeparator"]
+                except Exception:
+                    choices = None
+            if choices:
+                new = choices[m[2] % len(choices)]
+            elif isinstance(cur, (bool, np.bool_)):
+                new = not cur
+            elif isinstance(cur, (int, np.integer)):
+                new = int(cur) + 1 + m[2] % 3
+            elif isinstance(cur, (float, np.floating)) and cur == cur:
+                new = float(cur) + [0.5, -0.25, 1.75][m[2] % 3]
+            else:
+                continue
+            try:
+                setattr(stt, name, new)
+                changed += 1
+            except Exception as e:  # noqa
+                rec.label("setter-rejects:" + type(e).__name__)
+        before = state_values(v.state)
+        try:
+            text = GlueSerializer(v.state).dumps()
+        except Exception as e:  # noqa
+            rec.label("loud-at-save:" + type(e).__name__)
+            return
+        try:
+            st2 = GlueUnSerializer.loads(text).object("__main__")
+        except Exception as e:  # noqa
+            raise Mismatch("state-restore-raises/%s/%s" % (kind, type(e).__name__), repr(e)[:400])
+        after = state_values(st2)
+        from ..session import first_difference
+        diff = first_difference(before, after)
+        if diff:
+            raise Mismatch("state-roundtrip-differs/%s/%s" % (kind, diff[0].strip("/").replace("/", ".")), {"path": diff[0], "before": diff[1], "after": diff[2]})
+    finally:
+        try:
+            import matplotlib.pyplot as plt
+            plt.close("all")
+        except Exception:
+            pass
+    rec.nt(changed >= 2)
+    rec.label("kind:" + kind)
+
+
+state_cases = st.fixed_dictionaries({"kind": st.sampled_from(["scatter", "histogram", "image", "profile"]),
+                                     "mutations": st.lists(st.tuples(st.integers(0, 3), st.integers(0, 80), st.integers(0, 7)).map(list), min_size=1, max_size=10)})
+
+
 # --------------------------------------------------------------------------- generators
 
 idx = st.integers(0, 5)
@@ -394,8 +514,9 @@ helper_cases = st.fixed_dictionaries({
 
 
 def checks(tier):
-    n = {"quick": (64, 12, 800), "thorough": (2560, 20, 48000)}.get(tier, (4, 6, 10))
+    n = {"quick": (64, 12, 800, 128), "thorough": (2560, 20, 48000, 3200)}.get(tier, (4, 6, 10, 4))
     return [
         Check("viewer_histories", fn_viewer, strategy=viewer_cases(n[1]), examples=n[0]),
         Check("combo_helpers", fn_helper, strategy=helper_cases, examples=n[2]),
+        Check("state_roundtrip", fn_state_roundtrip, strategy=state_cases, examples=n[3]),
     ]
